@@ -8,7 +8,9 @@ Rec == ndJsonDeserialize(IOEnv.TRACE)
 
 Icmp4Mism(e) ==
   LET b == e.bytes  n == Len(b) IN
-  IF n < 8 THEN (IF e.ok # 0 THEN {"icmp4.accepted_short"} ELSE IF e.req # 8 \/ e.len # n THEN {"icmp4.len_error"} ELSE {})
+  \* (a truncated timestamp message may be reported as missing the 8 byte header or the 20 byte message: both are really required)
+  IF n < 8 THEN (IF e.ok # 0 THEN {"icmp4.accepted_short"}
+                 ELSE IF e.req \notin ({8} \cup (IF n >= 2 /\ Icmp4HdrLen(b[1], b[2]) = 20 THEN {20} ELSE {})) \/ e.len # n THEN {"icmp4.len_error"} ELSE {})
   ELSE LET k == Icmp4Kind(b[1], b[2])  hl == Icmp4HdrLen(b[1], b[2]) IN
        \* RFC 792: timestamp messages are exactly 20 bytes
        IF hl = 20 /\ n # 20 THEN (IF e.ok # 0 THEN {"icmp4.timestamp_size_accepted"} ELSE IF e.req # 20 \/ e.len # n THEN {"icmp4.len_error"} ELSE {})
